@@ -89,6 +89,62 @@ theorem c04_drains (g : Cfg) (ops : List Op) (N : Nat) (hN : 0 < N) :
   rw [r3] at hint
   exact ⟨r2.closed, r3, by simpa [pending] using hint, r4⟩
 
+/-- the poller's tail of an event, as three separately scheduled ops -/
+def tail3 : List Op := [.evConnEnd, .evRearm, .evErrClose]
+
+/-- **C04 (an open connection becomes quiet by poller steps alone).** From any reachable registered state (an
+    unregistered one is registered by `addConn` first: `c04_register_arms`) whose async connect, if any, has had its
+    event, and with no call before the connected callback (`early = false`): once the poller has finished the tail
+    of the event it may be in, the connection is closed or `Quiet` — the starting point of `c04_drains`. -/
+theorem c04_quiet_after_tail (g : Cfg) (ops : List Op) :
+    let s := run g init ops
+    s.reg = true → s.early = false → (s.connecting = true → s.connEv = true) →
+    (run g s tail3).closed = false → Quiet (run g s tail3) := by
+  intro s hr he hcn ho
+  have hh : s.hung = false := (reach_inv (g := g) ⟨ops, rfl⟩).1.nohang
+  have e : run g s tail3 = evEnd g s := (evEnd_run g s).symm
+  rw [e] at ho ⊢
+  exact quiet_after_tail g s hh hr he hcn ho
+
+/-- **C04 (drain, from any open registered state).** `c04_quiet_after_tail` composed with `c04_drains`: the
+    poller finishes its tail, then at most `backlog` rounds of [EPOLLOUT reported with room, event handled] empty the
+    queue; the connection is still open and the peer has every accepted byte. -/
+theorem c04_drains_from_open (g : Cfg) (ops : List Op) (N : Nat) (hN : 0 < N) :
+    let s := run g init ops
+    s.reg = true → s.early = false → (s.connecting = true → s.connEv = true) →
+    let q := run g s tail3
+    q.closed = false →
+    let t := run g q (List.replicate (backlog q.wl) (round N)).flatten
+    t.closed = false ∧ t.wl = [] ∧ t.wire = t.accepted ∧ t.accepted = q.accepted := by
+  intro s hr he hcn q ho t
+  have hq : Quiet q := c04_quiet_after_tail g ops hr he hcn ho
+  have e : q = run g init (ops ++ tail3) := by rw [run_append]
+  have h := c04_drains g (ops ++ tail3) N hN
+  simp only at h
+  rw [← e] at h
+  exact h hq
+
+/-- **C04 (progress behind interrupted attempts).** Any number of EINTR answers before the kernel takes at least
+    one byte do not change `c04_progress`: flush retries and the backlog strictly decreases. -/
+theorem c04_progress_eintr (g : Cfg) (s : S) (k n0 : Nat) (ks : List KAns) (hr : Reach g s) (hc : s.closed = false)
+    (hw : s.wl ≠ []) (hn0 : 0 < n0) :
+    backlog (flush g s (List.replicate k .eintr ++ .wrote n0 :: ks)).wl < backlog s.wl :=
+  flush_progress_eintr g s k n0 ks hc (reach_inv hr).1.pos hw hn0
+
+/-- **C04 (flush with nothing to flush).** `flush` on an empty queue calls `c.resetRead()` (repo fix "flush drops
+    the writing event when there is nothing to flush"). In every reachable state of this model without a connect in
+    progress that is a no-op: by `c04_belief` no write interest is registered for an empty queue. (The state the fix
+    is about — a dial that connected at once, registered read+write with no callback pending — is not produced by
+    `registerDial`, which always has the connected callback pending; see the manifest note.) -/
+theorem c04_flush_empty_noop (g : Cfg) (s : S) (ks : List KAns) (hr : Reach g s) (hc : s.closed = false)
+    (hcn : s.connecting = false) (hw : s.wl = []) : flush g s ks = s := by
+  obtain ⟨hd, ha⟩ := reach_inv hr
+  have hwf : s.isWAdded = false := by
+    cases h : s.isWAdded
+    · rfl
+    · have := (ha.wadd hc hd.nohang).mp h; simp [hw, hcn] at this
+  simp [flush, cResetRead, hc, hw, hwf]
+
 /-- the quiet states are what every sequential use leaves behind, e.g. after registration and any calls -/
 example :
     let g : Cfg := ⟨.oneshot, 0, 10, fun i => UInt8.ofNat i⟩
